@@ -29,7 +29,7 @@ META = {
         "symmetries.calc_phase_permutation",
     ],
     "floors": {
-        "quick": {"evaluations": 4000, "distinct_nontrivial": 800, "tables": {"feature/sector-with->=17-odd-charges": 1000, "op/tensordot": 1500, "op/transpose": 500, "op/matmul": 150, "op/trace": 100, "op/einsum": 150, "parity/odd-involved": 500, "feature/multi-label-operand": 300, "feature/nested-conjugate-labels": 40, "feature/sector-with->=6-odd-contracted": 300, "feature/sectors>2048": 30, "feature/both-operands>2048-sectors": 5, "feature/left-operand-dense-size>=2**22": 8}},
+        "quick": {"evaluations": 4000, "distinct_nontrivial": 800, "tables": {"feature/sector-with->=17-odd-charges": 1000, "op/tensordot": 1500, "op/transpose": 500, "op/matmul": 150, "op/trace": 100, "op/einsum": 150, "parity/odd-involved": 500, "feature/multi-label-operand": 300, "feature/nested-conjugate-labels": 40, "feature/sector-with->=6-odd-contracted": 150, "feature/sectors>2048": 20, "feature/both-operands>2048-sectors": 3, "feature/left-operand-dense-size>=2**22": 6}},
         "thorough": {"evaluations": 200000, "distinct_nontrivial": 40000, "tables": {"op/tensordot": 80000, "op/transpose": 20000}},
     },
     "exhaustive": {"quick": False, "thorough": False},
@@ -648,7 +648,7 @@ def run(ctx):
         ctx.run_case(case_many_legs, ctx, rng)
     for _, rng in ctx.cases("sparse-many-legs", ctx.budget(6000, 120000)):
         ctx.run_case(case_sparse_many_legs, ctx, rng)
-    for _, rng in ctx.cases("many-sectors", ctx.budget(48, 800)):
+    for _, rng in ctx.cases("many-sectors", ctx.budget(80, 800)):
         ctx.run_case(case_many_sectors, ctx, rng)
     for _, rng in ctx.cases("huge-dense", ctx.budget(12, 120)):
         ctx.run_case(case_huge_dense, ctx, rng)
